@@ -188,7 +188,8 @@ fn protected(policy: &Policy, entries: &[(u64, bool)], now: u64) -> BTreeSet<usi
             let mut it = ps.iter();
             let mut acc = match it.next() {
                 Some(p) => protected(p, entries, now),
-                None => return BTreeSet::new(),
+                // the empty conjunction holds for every version
+                None => return versions_of(entries).into_iter().collect(),
             };
             for p in it {
                 let other = protected(p, entries, now);
